@@ -529,7 +529,7 @@ type c05World struct {
 	fm      *funding.Manager
 	stream  *c05Stream
 	rec     *c05RecMgr
-	handler *pool.VerifSignHandler
+	handler *pool.VerifC05Handler
 	accts   []*c05Acct
 	nodes   [][33]byte
 	trace   []string
@@ -697,8 +697,8 @@ func (w *c05World) wireHandler() {
 		BaseClient:       c05Base{},
 		BatchStepTimeout: 2 * time.Second,
 	})
-	w.handler = pool.NewVerifSignHandler(
-		w.db, w.fm, w.rec, auctioneer.NewVerifSignClient(w.stream),
+	w.handler = pool.VerifC05NewHandler(
+		w.db, w.fm, w.rec, auctioneer.VerifC05NewClient(w.stream),
 	)
 }
 
